@@ -43,7 +43,9 @@ type RigSpec struct {
 	Algo       string `json:"algo"`  // direct | pid
 	TempMdeg   int    `json:"tempMdeg,omitempty"` // sensor reading (default 45000; the linear curve spans 30..70 degrees)
 	// configured limits of a hwmon fan (nil pointers = not configured); when all are nil a never-stop hwmon fan gets 20..60
-	CfgMin   *int `json:"cfgMin,omitempty"`
+	// OneTool (cmd fans): setPwm, getPwm and getRpm are one executable called with sub-commands
+	OneTool bool `json:"oneTool,omitempty"`
+	CfgMin  *int `json:"cfgMin,omitempty"`
 	CfgStart *int `json:"cfgStart,omitempty"`
 	CfgMax   *int `json:"cfgMax,omitempty"`
 }
@@ -199,13 +201,22 @@ func newRig(ctx *Ctx, spec RigSpec) *Rig {
 		}
 		cmdScript(r.state("set.sh"), "read code < "+r.state("set.code")+"; if [ $code = 0 ]; then echo \"$1\" > "+r.state("pwm")+"; fi; echo \"$1\" >> "+r.state("writes")+"; exit $code")
 		cmdScript(r.state("get.sh"), "read code < "+r.state("get.code")+"; read g < "+r.state("get.garbage")+"; if [ $g = 1 ]; then echo pwm=abc; else cat "+r.state("pwm")+"; fi; exit $code")
-		cmdScript(r.state("rpm.sh"), "read code < "+r.state("rpm.code")+"; read g < "+r.state("rpm.garbage")+"; if [ $g = 1 ]; then echo n/a; else p=$(cat "+r.state("pwm")+"); if [ \"$p\" -lt "+strconv.Itoa(spec.Theta)+" ]; then echo 0; else echo 1500; fi; fi; exit $code")
+		// while the file rpm.hang exists the tachometer query does not answer within fan2go's deadline
+		cmdScript(r.state("rpm.sh"), "if [ -e "+r.state("rpm.hang")+" ]; then sleep 3; fi; read code < "+r.state("rpm.code")+"; read g < "+r.state("rpm.garbage")+"; if [ $g = 1 ]; then echo n/a; else p=$(cat "+r.state("pwm")+"); if [ \"$p\" -lt "+strconv.Itoa(spec.Theta)+" ]; then echo 0; else echo 1500; fi; fi; exit $code")
 		cfg.Cmd = &configuration.CmdFanConfig{
 			SetPwm: &configuration.ExecConfig{Exec: r.state("set.sh"), Args: []string{"%pwm%"}},
 			GetPwm: &configuration.ExecConfig{Exec: r.state("get.sh")},
 		}
 		if spec.HasRpm {
 			cfg.Cmd.GetRpm = &configuration.ExecConfig{Exec: r.state("rpm.sh")}
+		}
+		if spec.OneTool {
+			cmdScript(r.state("tool.sh"), "sub=$1; shift; case \"$sub\" in set) exec "+r.state("set.sh")+" \"$@\";; get) exec "+r.state("get.sh")+";; rpm) exec "+r.state("rpm.sh")+";; esac; exit 64")
+			cfg.Cmd.SetPwm = &configuration.ExecConfig{Exec: r.state("tool.sh"), Args: []string{"set", "%pwm%"}}
+			cfg.Cmd.GetPwm = &configuration.ExecConfig{Exec: r.state("tool.sh"), Args: []string{"get"}}
+			if spec.HasRpm {
+				cfg.Cmd.GetRpm = &configuration.ExecConfig{Exec: r.state("tool.sh"), Args: []string{"rpm"}}
+			}
 		}
 	}
 	fan, err := fans.NewFan(cfg)
